@@ -191,6 +191,15 @@ Proof.
   rewrite map_length. unfold within_declared, hlen in Hw. cbn [length Nat.add]. tlia.
 Qed.
 
+Lemma save_load_general_explicit (h : holder) t0 r :
+  h_thetas h = t0 :: r -> hlen h <= h_declared h ->
+  save_load P Sh h
+  = Ok {| h_declared := h_declared h; h_thetas := map (fun t => (fst t, snd t0)) (h_thetas h) |}.
+Proof.
+  intros E Hw. rewrite save_load_general; [|rewrite E; discriminate|exact Hw].
+  unfold normalize. now rewrite E.
+Qed.
+
 Lemma save_load_overfull (h : holder) :
   h_thetas h <> [] -> hlen h > h_declared h -> save_load P Sh h = Err 1.
 Proof.
